@@ -79,11 +79,15 @@ def run(r: Run):
     # 2. generators: charge z vs charge 0
     streams = [("poisson", [(Fraction(m), n) for m in (0, 750, 1800, 5000, 100000) for n in (1, 2, 8, 40)] +
                 # ladders long / heavy enough that the Poisson terms leave the range of a double before the end
-                [(Fraction(40_000_000), 100), (Fraction(180_000), 200), (Fraction(10 ** 9), 60), (Fraction(2_260_000), 300)], [CARRIERS[0]])]
+                [(Fraction(40_000_000), 100), (Fraction(180_000), 200), (Fraction(10 ** 9), 60), (Fraction(2_260_000), 300)] +
+                # masses that the carrier cancels exactly at charge -k (k protons removed from k protons): m/z is 0.0, a value
+                # like any other
+                [(Fraction(k * 1.007276), n) for k in range(1, 9) for n in (1, 3)], [CARRIERS[0]])]
     # fine-structure expansions are exponential: only compositions with at most ~1e5 arrangements
     small = ["H2O", "C2H6S1", "Br2", "Cl2C1", "Fe2O3", "K3", "Si2Mg1O4", "Ca1Cl2"]
     streams.append(("conv", [(f, Fraction(t)) for f in small for t in (Fraction(0), Fraction(1, 10 ** 6))] +
-                    [("C:13=2,C:0=4,H:0=6", Fraction(1, 10 ** 6)), ("C:13=1,O:18=1", Fraction(0)), ("Cl:37=2,C:0=1", Fraction(0))], CARRIERS))
+                    [("C:13=2,C:0=4,H:0=6", Fraction(1, 10 ** 6)), ("C:13=1,O:18=1", Fraction(0)), ("Cl:37=2,C:0=1", Fraction(0))] +
+                    [(f"H+:0={k}", Fraction(0)) for k in (1, 2, 3, 5, 8)], CARRIERS))
     # plus compositions whose lightest variants carry < 1e-10 of the requested range (kept as leading entries
     # by the cut loop) and a 184 kDa polymer at the default and the maximal request
     streams.append(("brain", [(f, n) for f in FORMULAS for n in (0, 2, 5, 17)] +
@@ -91,7 +95,8 @@ def run(r: Run):
                      ("C2000H4000", 0),
                      # compositions of monoisotopic elements only (a single variant; the variant bound is 0)
                      ("Na1", 0), ("Cs2I1", 3), ("P1F6", 0), ("Au4", 2), ("Na3I2", 0),
-                     ("C:13=2,C:0=4,H:0=12,O:0=6", 6), ("C:13=1,O:18=1", 0), ("H:2=4,C:0=2", 3)], CARRIERS))
+                     ("C:13=2,C:0=4,H:0=12,O:0=6", 6), ("C:13=1,O:18=1", 0), ("H:2=4,C:0=2", 3)] +
+                    [(f"H+:0={k}", 0) for k in (1, 2, 3, 5, 8)], CARRIERS))
     for gen, items, carriers in streams:
         mode = {"poisson": "poisson", "conv": "conv", "brain": "brain"}[gen]
         zs = list(range(-8, 9)) if thorough or gen == "poisson" else [-8, -3, -1, 0, 1, 2, 5]
@@ -128,7 +133,9 @@ def run(r: Run):
                         problems.append(f"peak {k}: intensity differs from the neutral pattern")
                         break
                     exp = b[0] if z == 0 else (b[0] + z * c) / abs(z)
-                    if not close(a[0], exp, rel=1e-9):
+                    # (where carrier and mass cancel, the error of the sum is relative to the summands, not to the result)
+                    slack = 0 if z == 0 else float((abs(b[0]) + abs(z * c)) / abs(z)) * 1e-12
+                    if not close(a[0], exp, rel=1e-9, abs_=slack):
                         problems.append(f"peak {k}: m/z {float(a[0])}, expected {float(exp)}")
                         break
             if gen == "poisson" and z == 0 and p[1]:
